@@ -1,7 +1,7 @@
 """C01 — Interest / Data encode-decode round trip (structure of the two-pass encoder and of make/parse). DESIGN §4 C01."""
 import ast
 
-from .common import ctx, returns, calls_in_ctx, reach_from_succ, site, srcs_text, caller_object_reaches, full_text, call_arg
+from .common import ctx, returns, calls_in_ctx, reach_from_succ, site, srcs_text, caller_object_reaches, full_text, call_arg, alias_text, bulk_appends
 from .c08 import size_rules, stale_rule
 from ..flow import callee_attr
 from ..linexpr import lin, show, NotLinear
@@ -198,8 +198,8 @@ def run(R):
         if f == 'forwarding_hint':
             okm = any(n.kind == 'for' and ast.unparse(n.ast.iter) == f'{m_par}.forwarding_hint' for n in mi.cfg.nodes) and \
                 any(callee_attr(c) == 'append' and 'forwarding_hint.names' in ast.unparse(c.func) for (n, c) in calls_in_ctx(mi))
-            okp = any(n.kind == 'for' and ast.unparse(n.ast.iter) == f'{p_ret}.forwarding_hint.names' for n in pi.cfg.nodes) and \
-                any(callee_attr(c) == 'append' and ast.unparse(c.func.value) == f'{p_par}.forwarding_hint' for (n, c) in calls_in_ctx(pi))
+            okp = any(alias_text(pi, rv) == f'{p_par}.forwarding_hint' and alias_text(pi, it) == f'{p_ret}.forwarding_hint.names'
+                      for (n, rv, it) in bulk_appends(pi))
         else:
             okm = mk.get(f) == f'{m_par}.{f}'
             okp = pk.get(f) == f'{p_ret}.{f}'
@@ -235,7 +235,7 @@ def run(R):
     rp = returns(pd)
     # the second element returned is the decoded MetaInfo, or a fresh MetaInfo() when the element is absent
     mvars = {ast.unparse(r.ast.value.elts[1]) for r in rp if isinstance(r.ast.value, ast.Tuple) and len(r.ast.value.elts) == 4}
-    pdefs = [ast.unparse(v) for n in pd.cfg.nodes for (nm, v) in pd.cfg.defs_of(n) if nm in mvars and isinstance(v, ast.AST)]
+    pdefs = sorted({s_.text() for r in rp if isinstance(r.ast.value, ast.Tuple) and len(r.ast.value.elts) == 4 for s_ in pd.sources(r, r.ast.value.elts[1])})
     inst = 'make_data / parse_data :: name, MetaInfo, content'
     okd = dk.get('name') == d_args[0] and dk.get('meta_info') == d_args[1] and dk.get('content') == d_args[2] and rp and all(
         isinstance(r.ast.value, ast.Tuple) and len(r.ast.value.elts) == 4 and
